@@ -429,6 +429,13 @@ func c05PeerCases(thorough bool) []c05PeerCase {
 	var out []c05PeerCase
 	for _, p := range AllProtos {
 		for _, kind := range []Kind{KUnary, KServer} {
+			for code := 1; code <= 16; code++ {
+				out = append(out, c05PeerCase{Proto: p, Kind: kind, NMsgs: 0, ErrCode: code, ErrMsg: 1, Details: 1, Meta: 1, TCase: 1})
+			}
+		}
+	}
+	for _, p := range AllProtos {
+		for _, kind := range []Kind{KUnary, KServer} {
 			for _, js := range []bool{false, true} {
 				nmsgs := []int{1}
 				if kind == KServer {
@@ -657,6 +664,16 @@ func c05ReqCases() []c05ReqCase {
 
 func c05OutCases(thorough bool) []c05OutCase {
 	var out []c05OutCase
+	// every one of the 16 codes through every protocol and a unary and a streaming kind
+	for _, p := range AllProtos {
+		for _, kind := range []Kind{KUnary, KServer} {
+			for code := 1; code <= 16; code++ {
+				cfg := Cfg{Proto: p, Comp: CompDefault, Kind: kind, HTTP: 2}
+				sizes := []int{20}
+				out = append(out, c05OutCase{Cfg: cfg, NHdr: 1, NTrl: 1, Sizes: sizes, ErrCode: code, ErrMsg: 1, Details: 1, ReqSizes: []int{15}})
+			}
+		}
+	}
 	for _, p := range AllProtos {
 		for _, js := range []bool{false, true} {
 			for _, comp := range AllComps {
